@@ -508,7 +508,7 @@ func (d *l3) compare(when string) {
 			d.fail("view_differs", "%s: the combined stable+unstable view [%d,%d] is %s but the reference log is %s", when, lo, st.LastIndex, fmtEnts(got), fmtEnts(want))
 		}
 	}
-	for i := lo - 1; i <= st.LastIndex+1; i++ {
+	for i := lo - 1; i <= st.LastIndex+5; i++ {
 		gt, gerr := d.rn.VerifLogTerm(i)
 		wt, werr := r.log.Term(i)
 		if i+1 == st.FirstIndex && r.log.Base < i {
